@@ -6,7 +6,7 @@ CONSTANTS
   Indents = {0, 14}
   Bodies <- MCBodies
   MaxLines = 2
-  Bases = {0, 8}
+  Bases = {1}
   FillShape <- MCFill
 INVARIANT InSource
 INVARIANT TrimSafe
